@@ -249,6 +249,9 @@ public:
     {
         Wrapper tmp = a, res(1);
 
+        if (p == 0)
+            return res;
+
         while (p != 1) {
             if (p % 2 == 0) {
                 tmp = tmp * tmp;
